@@ -24,7 +24,9 @@ NULL == <<>>
 
 Hand(ln) == ClassHand(ln.ranks, ln.flush)
 Tbl(ln) == IF ln.table = "short" THEN "short" ELSE "standard"
-Open(ln) == ln.deck = "36" /\ ShortWheel(Hand(ln))      \* left open by the property
+\* left open by the property ("how a short-deck A-6-7-8-9 is classed is not fixed"): whenever the deck or the
+\* ranking table is the short-deck one (a 52-card deck under the short-deck table is a legal, mixed configuration)
+Open(ln) == (ln.deck = "36" \/ ln.table = "short") /\ ShortWheel(Hand(ln))
 SameGroup(a, b) == a.deck = b.deck /\ a.table = b.table
 
 LineBad(ln) ==
